@@ -214,6 +214,12 @@ def k2_k3_ops(F, R, M, roles):
                 if want_sector:
                     blockp = [i + 1 for i, l in enumerate(sg.entry_fn['locals'][1:sg.entry_fn['arg_count'] + 1]) if l['ty'] == 'usize']
                     oks = strip_conv(sv) == ('param', blockp[0]) if blockp else False
+                    # ... at full width: no intermediate cast to a type narrower than the 64-bit sector field (a device above 2 TiB)
+                    t_ = sv
+                    while oks and t_[0] in ('cast', 'conv', 'idcall'):
+                        if t_[0] == 'cast' and t_[1] == 'IntToInt' and str(t_[2]) in ('u8', 'u16', 'u32', 'i8', 'i16', 'i32'):
+                            oks = False
+                        t_ = t_[3] if t_[0] == 'cast' else t_[2]
                     R.check(oks, 'K2', '%s:sector' % b['name'], site(sg, n), 'sector = block number parameter', 'sector field is %s, expected the block number parameter' % fmt(sv))
                 else:
                     R.check(const_int(sv) == 0, 'K2', '%s:sector' % b['name'], site(sg, n), 'sector = 0', 'sector field is %s, expected 0' % fmt(sv))
